@@ -116,7 +116,7 @@ def extract(repo=None, use_cache=True, quiet=True):
             os.replace(tmp, out)
             # keep the cache small: drop all but the 6 newest fact files
             olds = sorted(glob.glob(os.path.join(CACHE, "facts-*.json")), key=os.path.getmtime)
-            for o in olds[:-6]:
+            for o in olds[:-150]:
                 try:
                     os.remove(o)
                 except OSError:
